@@ -11,6 +11,7 @@ import (
 	"testing"
 
 	"github.com/yaricom/goNEAT/v4/neat/genetics"
+	"pgregory.net/rapid"
 )
 
 /* C17 - evolution is reproducible from the random seed */
@@ -125,19 +126,62 @@ func firstDifference(a, b string) string {
 	return fmt.Sprintf("lengths %d vs %d lines", len(la), len(lb))
 }
 
-func CheckC17(sc Scenario, rec *Rec) error {
-	d1, w1, grew, err := evolve(sc)
-	if err != nil {
-		return err
-	}
-	if d1 == "" {
+// C17Case: the scenario under test and the unrelated work (other scenarios, generated: other option sets, activator
+// wheels, seeds) that the same process performs between the two runs. The case carries its own "earlier work", so a
+// failure replays in a fresh process.
+type C17Case struct {
+	Sc     Scenario   `json:"scenario"`
+	Others []Scenario `json:"unrelated_work"`
+}
+
+func genC17() *rapid.Generator[C17Case] {
+	main := genScenario(ScenarioCfg{MaxEpochs: pick(20, 30), Parallel: 0, Structural: true})
+	other := genScenario(ScenarioCfg{MaxEpochs: 2, Parallel: 0, Structural: true, MaxPop: 8})
+	return rapid.Custom(func(t *rapid.T) C17Case {
+		c := C17Case{Sc: main.Draw(t, "scenario")}
+		if rapid.IntRange(0, 2).Draw(t, "stealing variant") == 0 {
+			// many species that keep improving, old enough to be robbed: the stolen babies are handed out beyond
+			// the three best species (decisions drawn from the random source)
+			o := &c.Sc.Opts
+			o.PopSize = rapid.IntRange(30, 60).Draw(t, "pop size (stealing)")
+			o.BabiesStolen = rapid.IntRange(4, 20).Draw(t, "babies stolen (stealing)")
+			o.DropOffAge = rapid.IntRange(15, 30).Draw(t, "dropoff age (stealing)")
+			o.CompatThreshold = rapid.Float64Range(0.3, 2).Draw(t, "threshold (stealing)")
+			c.Sc.Epochs = rapid.IntRange(8, pick(20, 30)).Draw(t, "epochs (stealing)")
+			c.Sc.Fit.Kind = rapid.SampledFrom([]string{"uniform", "heavy", "distinct", "genome"}).Draw(t, "fitness (stealing)")
+		}
+		n := rapid.IntRange(0, 3).Draw(t, "unrelated scenarios")
+		for i := 0; i < n; i++ {
+			c.Others = append(c.Others, other.Draw(t, "unrelated"))
+		}
+		return c
+	})
+}
+
+func CheckC17(c C17Case, rec *Rec) error {
+	sc := c.Sc
+	d1, w1, grew, err1 := evolve(sc)
+	if err1 == nil && d1 == "" {
 		rec.Class("skipped: constructor outside the domain (gene-less random genome / failing turnover before the checkpoint)")
 		return nil
 	}
 	interfere(sc.Seed)
-	d2, w2, _, err := evolve(sc)
-	if err != nil {
-		return fmt.Errorf("second run failed although the first succeeded: %v", err)
+	for _, o := range c.Others {
+		_, _, _, _ = evolve(o)
+		rec.Class("generated unrelated scenario between the runs")
+	}
+	d2, w2, _, err2 := evolve(sc)
+	if err1 != nil || err2 != nil {
+		// a scenario that fails is judged by the properties about construction and turnover; here only "the same
+		// inputs give the same outcome" matters
+		if err1 != nil && err2 != nil && err1.Error() == err2.Error() {
+			rec.Class("scenario fails identically in both runs (outside this property)")
+			return nil
+		}
+		return fmt.Errorf("two runs of the same scenario with the same seed end differently: first run: %v; second run: %v", err1, err2)
+	}
+	if sc.Opts.BabiesStolen > 0 && sc.Epochs >= 8 {
+		rec.Class("babies stolen configured, 8 or more epochs")
 	}
 	rec.Class("constructor:" + sc.Ctor)
 	rec.Class("fitness:" + sc.Fit.Kind)
@@ -166,7 +210,7 @@ func CheckC17(sc Scenario, rec *Rec) error {
 }
 
 func TestC17(t *testing.T) {
-	runProp(t, "C17", "rerun", 200, 4000, genScenario(ScenarioCfg{MaxEpochs: pick(20, 30), Parallel: 0, Structural: true}), CheckC17)
+	runProp(t, "C17", "rerun", 300, 4000, genC17(), CheckC17)
 }
 
 func init() { registerReplay("C17", "rerun", CheckC17) }
